@@ -26,6 +26,8 @@ func TestCheck(t *testing.T) {
 	}
 	run := mc.Start(prop)
 	switch prop {
+	case "C02":
+		exitCode = runC02wiring(t, run)
 	case "C03":
 		exitCode = runC03read(t, run)
 	case "C04":
